@@ -717,6 +717,17 @@ class _Inliner:
             for t_, y_ in zip(tn, yn):
                 mapping[y_.id] = t_.id
             unified = True
+        # read-only parameters bound to a caller variable or a literal are that variable / literal
+        g_stored = {n.id for n in _own_walk(fn) if isinstance(n, ast.Name) and isinstance(n.ctx, (ast.Store, ast.Del))}
+        caller_stores = {n.id for b in loop.body for n in ast.walk(b) if isinstance(n, ast.Name) and isinstance(n.ctx, (ast.Store, ast.Del))}
+        kept = []
+        for p, a in binds:
+            if p not in g_stored and (isinstance(a, ast.Constant) or (isinstance(a, ast.Name) and a.id not in caller_stores and (a.id not in locs or a.id == p))):
+                exprs[p] = a
+                mapping.pop(p, None)
+            else:
+                kept.append((p, a))
+        binds = kept
         ren = _Rename(mapping, exprs)
         pre = [ast.Assign(targets=[ast.Name(id=mapping.get(p, p), ctx=ast.Store())], value=copy.deepcopy(a), lineno=call.lineno) for p, a in binds]
         body = [ren.visit(s) for s in copy.deepcopy(_body_wo_doc(fn))]
@@ -1493,6 +1504,133 @@ def expand_any_all(mods, known):
     return done
 
 
+def expand_extend_generators(mods, known):
+    """`acc.extend(gen(args))` / `acc += gen(args)` with a generator function that is not on the
+    pinned tree  ->  `for v in gen(args): acc.append(v)` (extend consumes the generator at once),
+    so that the generator can be inlined like any `for ... in gen()` loop."""
+    from . import renames
+
+    done = []
+    gens = set()
+    for rel, tree in mods.items():
+        for q, fn, holder, cls, parent in renames.collect_functions(tree, rel):
+            if q not in known and any(isinstance(n, (ast.Yield, ast.YieldFrom)) for n in _own_walk(fn)):
+                gens.add(fn.name)
+    if not gens:
+        return done
+    counter = [0]
+
+    def is_gen_call(e):
+        if not isinstance(e, ast.Call):
+            return False
+        nm = e.func.id if isinstance(e.func, ast.Name) else (e.func.attr if isinstance(e.func, ast.Attribute) else None)
+        return nm in gens
+
+    def do_block(stmts, rel):
+        out = []
+        for st in stmts:
+            for fld in ("body", "orelse", "finalbody"):
+                b = getattr(st, fld, None)
+                if isinstance(b, list) and b and isinstance(b[0], ast.stmt) and not isinstance(st, ast.ClassDef):
+                    setattr(st, fld, do_block(b, rel))
+            if isinstance(st, ast.Try):
+                for h in st.handlers:
+                    h.body = do_block(h.body, rel)
+            acc = src = None
+            if isinstance(st, ast.Expr) and isinstance(st.value, ast.Call) and isinstance(st.value.func, ast.Attribute) and st.value.func.attr == "extend" and len(st.value.args) == 1 and not st.value.keywords and is_gen_call(st.value.args[0]) and isinstance(st.value.func.value, (ast.Name, ast.Attribute)):
+                acc, src = st.value.func.value, st.value.args[0]
+            elif isinstance(st, ast.AugAssign) and isinstance(st.op, ast.Add) and is_gen_call(st.value) and isinstance(st.target, ast.Name):
+                acc, src = ast.Name(id=st.target.id, ctx=ast.Load()), st.value
+            if acc is not None:
+                counter[0] += 1
+                v = f"_item{counter[0]}"
+                app = ast.Expr(value=ast.Call(func=ast.Attribute(value=copy.deepcopy(acc), attr="append", ctx=ast.Load()), args=[ast.Name(id=v, ctx=ast.Load())], keywords=[]))
+                loop = ast.For(target=ast.Name(id=v, ctx=ast.Store()), iter=src, body=[app], orelse=[], lineno=st.lineno)
+                ast.copy_location(loop, st)
+                ast.copy_location(app, st)
+                ast.fix_missing_locations(loop)
+                out.append(loop)
+                done.append((rel, getattr(st, "lineno", 0)))
+                continue
+            out.append(st)
+        return out
+
+    for rel, tree in mods.items():
+        for n in ast.walk(tree):
+            if isinstance(n, (ast.FunctionDef, ast.AsyncFunctionDef)):
+                n.body = do_block(n.body, rel)
+    return done
+
+
+def expand_iter_sentinel(mods):
+    """`for x in iter(f, sentinel): BODY` is exactly
+    `while True: x = f(); if x == sentinel: break; BODY` - written out so that the rules see
+    the call and the stop test."""
+    done = []
+
+    def do_block(stmts, rel):
+        out = []
+        for st in stmts:
+            for fld in ("body", "orelse", "finalbody"):
+                b = getattr(st, fld, None)
+                if isinstance(b, list) and b and isinstance(b[0], ast.stmt) and not isinstance(st, ast.ClassDef):
+                    setattr(st, fld, do_block(b, rel))
+            if isinstance(st, ast.Try):
+                for h in st.handlers:
+                    h.body = do_block(h.body, rel)
+            it = getattr(st, "iter", None)
+            if (isinstance(st, ast.For) and not st.orelse and isinstance(st.target, ast.Name) and isinstance(it, ast.Call) and isinstance(it.func, ast.Name) and it.func.id == "iter" and len(it.args) == 2 and not it.keywords and isinstance(it.args[0], (ast.Name, ast.Attribute))):
+                call = ast.Call(func=it.args[0], args=[], keywords=[])
+                assign = ast.Assign(targets=[ast.Name(id=st.target.id, ctx=ast.Store())], value=call, lineno=st.lineno)
+                stop = ast.If(test=ast.Compare(left=ast.Name(id=st.target.id, ctx=ast.Load()), ops=[ast.Eq()], comparators=[it.args[1]]), body=[ast.Break()], orelse=[])
+                w = ast.While(test=ast.Constant(value=True), body=[assign, stop] + st.body, orelse=[])
+                for x in (assign, stop, w):
+                    ast.copy_location(x, st)
+                ast.fix_missing_locations(w)
+                out.append(w)
+                done.append((rel, getattr(st, "lineno", 0)))
+                continue
+            out.append(st)
+        return out
+
+    for rel, tree in mods.items():
+        for n in ast.walk(tree):
+            if isinstance(n, (ast.FunctionDef, ast.AsyncFunctionDef)):
+                n.body = do_block(n.body, rel)
+    return done
+
+
+def split_isinstance_handlers(mods):
+    """`except B as e: if isinstance(e, A): X else: Y; REST`  ->  `except A as e: X; REST`
+    followed by `except B as e: Y; REST` (A is tried first, so the outcome is the same).  The
+    dispatch on the exception's class is what separate except clauses spell, and the rules
+    read handlers clause by clause."""
+    done = []
+    for rel, tree in mods.items():
+        for t in (n for n in ast.walk(tree) if isinstance(n, ast.Try)):
+            new_handlers = []
+            for h in t.handlers:
+                first = h.body[0] if h.body else None
+                # leading comments are not in the tree; a docstring-like constant may precede
+                ok = (h.name and isinstance(first, ast.If) and isinstance(first.test, ast.Call) and isinstance(first.test.func, ast.Name) and first.test.func.id == "isinstance" and len(first.test.args) == 2 and isinstance(first.test.args[0], ast.Name) and first.test.args[0].id == h.name and isinstance(first.test.args[1], (ast.Name, ast.Attribute)) and first.orelse)
+                if ok:
+                    stores = [x for b in h.body for x in ast.walk(b) if isinstance(x, ast.Name) and x.id == h.name and isinstance(x.ctx, (ast.Store, ast.Del))]
+                    ok = not stores
+                if not ok:
+                    new_handlers.append(h)
+                    continue
+                rest = h.body[1:]
+                a = ast.ExceptHandler(type=copy.deepcopy(first.test.args[1]), name=h.name, body=list(first.body) + copy.deepcopy(rest))
+                b = ast.ExceptHandler(type=h.type, name=h.name, body=list(first.orelse) + rest)
+                for x in (a, b):
+                    ast.copy_location(x, h)
+                    ast.fix_missing_locations(x)
+                new_handlers += [a, b]
+                done.append((rel, getattr(h, "lineno", 0)))
+            t.handlers = new_handlers
+    return done
+
+
 def expand_match_spans(mods):
     """f(a, *m.span(k)) -> f(a, m.start(k), m.end(k))  (re.Match.span(k) is exactly that pair)"""
     n_done = 0
@@ -1509,6 +1647,24 @@ def expand_match_spans(mods):
                     else:
                         new.append(a)
                 n.args = new
+        # a, b = m.span(k)  ->  a = m.start(k); b = m.end(k)
+        for holder in ast.walk(tree):
+            for fld in ("body", "orelse", "finalbody"):
+                sts = getattr(holder, fld, None)
+                if not (isinstance(sts, list) and sts and isinstance(sts[0], ast.stmt)):
+                    continue
+                out = []
+                for st in sts:
+                    v = getattr(st, "value", None)
+                    if (isinstance(st, ast.Assign) and len(st.targets) == 1 and isinstance(st.targets[0], (ast.Tuple, ast.List)) and len(st.targets[0].elts) == 2 and all(isinstance(t, ast.Name) for t in st.targets[0].elts)
+                            and isinstance(v, ast.Call) and isinstance(v.func, ast.Attribute) and v.func.attr == "span" and isinstance(v.func.value, ast.Name) and not v.keywords and len(v.args) <= 1):
+                        for t, meth in zip(st.targets[0].elts, ("start", "end")):
+                            new = ast.Assign(targets=[ast.Name(id=t.id, ctx=ast.Store())], value=ast.Call(func=ast.Attribute(value=copy.deepcopy(v.func.value), attr=meth, ctx=ast.Load()), args=copy.deepcopy(v.args), keywords=[]), lineno=st.lineno)
+                            out.append(ast.fix_missing_locations(ast.copy_location(new, st)))
+                        n_done += 1
+                    else:
+                        out.append(st)
+                setattr(holder, fld, out)
         if n_done:
             ast.fix_missing_locations(tree)
     return n_done
@@ -1558,6 +1714,12 @@ def normalise(mods, known=None):
         folded.append((f"loop over {n} option names in {rel}", ln))
     for rel, ln, n in unroll_new_table_loops(mods, kf):
         folded.append((f"new loop over a literal table of {n} rows in {rel} unrolled", ln))
+    for rel, ln in expand_iter_sentinel(mods):
+        folded.append((f"for ... in iter(callable, sentinel) in {rel} written out", ln))
+    for rel, ln in split_isinstance_handlers(mods):
+        folded.append((f"except clause that dispatches on isinstance() in {rel} split into clauses", ln))
+    for rel, ln in expand_extend_generators(mods, known):
+        folded.append((f"extend() over a new generator in {rel} written out as a loop", ln))
     for rel, ln in expand_any_all(mods, known):
         folded.append((f"any()/all() over a new helper in {rel} written out as a loop", ln))
     rep, dropped = _Inliner(mods, known, protected).run()
